@@ -45,20 +45,22 @@ Definition wf_map (cols : list Z) (nm : name_map) : bool :=
 Definition is_none (p : cell) : bool := match p with CNone => true | CInt z => z =? -1 | _ => false end.
 Definition is_int (c : cell) : bool := match c with CInt _ => true | _ => false end.
 
+(* with renumbered (non-integer) ids the empty string also means "no parent" *)
+Definition no_parent (ityp : bool) (p : cell) : bool := is_none p || (negb ityp && cell_eqb p empty_str).
+
 (* A well-formed table (under a name map with single id / parent_id columns):
-   distinct column names, rectangular rows, [a raw column called "id" is duplicate-free],
-   ids pairwise distinct, never empty and never -1, integers when the column is integer-typed,
+   distinct column names, rectangular rows,
+   the MAPPED id column: pairwise distinct, never empty, never -1, never "", integers when integer-typed,
    every parent is "no parent" or the id of ANOTHER row. *)
 Definition wf_table (t : table) (ityp : bool) (nm : name_map) : bool :=
   let cols := t_cols t in
   let ids := column t (id_col nm) in
   nodup_z cols
   && forallb (fun r => Nat.eqb (length r) (length cols)) (t_rows t)
-  && raw_id_unique t
-  && nodup_cells ids && negb (memc CNone ids) && negb (memc (CInt (-1)) ids)
+  && nodup_cells ids && negb (memc CNone ids) && negb (memc (CInt (-1)) ids) && negb (memc empty_str ids)
   && (negb ityp || forallb is_int ids)
   && forallb (fun r => let p := cell_of cols r (par_col nm) in
-                       is_none p || (memc p ids && negb (cell_eqb p (cell_of cols r (id_col nm))))) (t_rows t).
+                       no_parent ityp p || (memc p ids && negb (cell_eqb p (cell_of cols r (id_col nm))))) (t_rows t).
 
 (* the renumbering of ids: identity on integers when the id column is integer-typed, else the
    1-based rank of first appearance in the id column *)
@@ -745,6 +747,7 @@ Definition csv_core (t : table) (ityp trk lin : bool) (nm : name_map) (nd : nat)
   let m := id_mapping idc0 in
   let idc := if ityp then idc0 else map (map_cell m) idc0 in
   let parc := if ityp then parc0 else map (map_cell m) parc0 in
+  if negb ityp && existsb (is_unknown m) parc0 then ValueErr else
   match ints_of idc with
   | Some ids => match edge_tuples parc ids with
                 | Some es => finish (Some nd) trk lin ids es (csv_props t nm)
@@ -755,7 +758,7 @@ Definition csv_core (t : table) (ityp trk lin : bool) (nm : name_map) (nd : nat)
 
 Lemma import_csv_wf_map t ityp trk lin nm : wf_map (t_cols t) nm = true ->
   exists pcs, lookup k_pos nm = Some (Multi pcs) /\
-    import_csv t ityp trk lin nm = if raw_id_unique t then csv_core t ityp trk lin nm (S (length pcs)) else ValueErr.
+    import_csv t ityp trk lin nm = if nodup_cells (column t (id_col nm)) then csv_core t ityp trk lin nm (S (length pcs)) else ValueErr.
 Proof.
   intros Hwf. pose proof (wf_map_inv _ _ Hwf) as [Hnd [Hid [Hpar [Htime [[pcs [Hpos [Hlen Hell]]] [Hne Hsrc]]]]]].
   destruct (clean_facts _ Hnd) as [Hk [Ht [Hmk Hkm]]].
@@ -765,7 +768,6 @@ Proof.
   assert (Hhp : haskey k_pos nm = true) by (unfold haskey; now rewrite Hpos).
   rewrite (preprocess_id nm Hhp Hne).
   rewrite (wf_map_validate _ _ csv_required Hwf) by (intros k Hk'; exact Hk'). cbn [negb].
-  destruct (raw_id_unique t); cbn [negb]; [|reflexivity].
   rewrite rename_clean; [|exact Ht|].
   2:{ intros ts Hts. rewrite keys_table_props. destruct (in_flatten_source _ _ Hts) as [k [s [Hin Hs]]]. eapply Hsrc; eauto. }
   assert (Hcid : In (id_col nm) (t_cols t)) by (eapply Hsrc; [eapply lookup_In; exact Hid|now left]).
@@ -773,7 +775,8 @@ Proof.
   rewrite (lookup_renamed _ nm k_id (id_col nm) Ht) by (apply in_flatten_single; eapply lookup_In; exact Hid).
   rewrite (lookup_renamed _ nm k_parent (par_col nm) Ht) by (apply in_flatten_single; eapply lookup_In; exact Hpar).
   unfold getd. rewrite (lookup_table_props t _ Hcid), (lookup_table_props t _ Hcpar).
-  unfold ndim_of_map. rewrite Hpos. unfold csv_core, csv_props, scol, cells_of. cbn [p_vals]. reflexivity.
+  unfold scol, cells_of. cbn [p_vals]. destruct (nodup_cells (column t (id_col nm))); cbn [negb]; [|reflexivity].
+  unfold ndim_of_map. rewrite Hpos. unfold csv_core, csv_props. reflexivity.
 Qed.
 
 (* what the property dict of a clean, valid name map holds *)
@@ -843,14 +846,14 @@ Qed.
 
 Lemma wf_table_inv t ityp nm : wf_table t ityp nm = true ->
   let ids := column t (id_col nm) in
-  raw_id_unique t = true /\ NoDup ids /\ ~ In CNone ids /\ ~ In (CInt (-1)) ids /\
+  NoDup ids /\ ~ In CNone ids /\ ~ In (CInt (-1)) ids /\ ~ In empty_str ids /\
   (ityp = true -> forall c, In c ids -> is_int c = true) /\
   (forall r, In r (t_rows t) -> let p := cell_of (t_cols t) r (par_col nm) in
-     is_none p = true \/ (In p ids /\ p <> cell_of (t_cols t) r (id_col nm))).
+     no_parent ityp p = true \/ (In p ids /\ p <> cell_of (t_cols t) r (id_col nm))).
 Proof.
-  unfold wf_table. rewrite !andb_true_iff. intros [[[[[[[_ _] H3] H4] H5] H6] H7] H8]. cbn zeta.
-  split; [exact H3|]. split; [now apply nodup_cells_NoDup|]. split; [apply memc_false; now apply negb_true_iff|].
-  split; [apply memc_false; now apply negb_true_iff|]. split.
+  unfold wf_table. rewrite !andb_true_iff. intros [[[[[[[_ _] H4] H5] H6] H6'] H7] H8]. cbn zeta.
+  split; [now apply nodup_cells_NoDup|]. split; [apply memc_false; now apply negb_true_iff|].
+  split; [apply memc_false; now apply negb_true_iff|]. split; [apply memc_false; now apply negb_true_iff|]. split.
   - intros -> c Hc. cbn in H7. rewrite forallb_forall in H7. now apply H7.
   - intros r Hr. rewrite forallb_forall in H8. specialize (H8 r Hr). cbn zeta in H8. apply orb_true_iff in H8.
     destruct H8 as [H8|H8]; [now left|right]. apply andb_true_iff in H8. destruct H8 as [Ha Hb]. split; [now apply memc_In|].
@@ -859,11 +862,30 @@ Qed.
 
 Lemma is_none_cases p : is_none p = true -> p = CNone \/ p = CInt (-1).
 Proof. destruct p as [z| | |]; cbn; try discriminate; [|now left]. intros H. apply Z.eqb_eq in H. right. now subst. Qed.
+Lemma no_parent_cases ityp p : no_parent ityp p = true -> p = CNone \/ p = CInt (-1) \/ (ityp = false /\ p = empty_str).
+Proof.
+  unfold no_parent. intros H. apply orb_true_iff in H. destruct H as [H|H]; [destruct (is_none_cases _ H); tauto|].
+  apply andb_true_iff in H. destruct H as [H1 H2]. right. right. split; [now destruct ityp|].
+  destruct (cell_eqb_spec p empty_str); [assumption|discriminate].
+Qed.
+Lemma is_unknown_false_id ids p : In p ids -> is_unknown (id_mapping ids) p = false.
+Proof.
+  intros H. unfold is_unknown. assert (E : memc p (map fst (id_mapping ids)) = true).
+  { apply memc_In. unfold id_mapping. rewrite map_fst_enum. destruct (uniq_from_complete ids [] p H) as [[]|H']. exact H'. }
+  rewrite E. cbn. now rewrite andb_false_r.
+Qed.
+Lemma is_unknown_true ids p : ~ In p ids -> p <> CNone -> p <> empty_str -> p <> CInt (-1) -> is_unknown (id_mapping ids) p = true.
+Proof.
+  intros H H1 H2 H3. unfold is_unknown. assert (E : memc p (map fst (id_mapping ids)) = false).
+  { apply memc_false. unfold id_mapping. rewrite map_fst_enum. intros Hi. apply H. eapply uniq_from_incl; eauto. }
+  rewrite E. destruct (cell_eqb_spec p CNone); [contradiction|]. destruct (cell_eqb_spec p empty_str); [contradiction|].
+  destruct (cell_eqb_spec p (CInt (-1))); [contradiction|]. reflexivity.
+Qed.
 
 (* the edges that the property asks for *)
 Definition row_edge (t : table) (ityp : bool) (nm : name_map) (r : list cell) : list (Z * Z) :=
   let p := cell_of (t_cols t) r (par_col nm) in
-  if is_none p then [] else [(renum t ityp nm p, renum t ityp nm (cell_of (t_cols t) r (id_col nm)))].
+  if no_parent ityp p then [] else [(renum t ityp nm p, renum t ityp nm (cell_of (t_cols t) r (id_col nm)))].
 
 Lemma csv_core_wf t ityp trk lin nm nd : wf_table t ityp nm = true ->
   spatial_props_ok (Some nd) (csv_props t nm) = true ->
@@ -872,7 +894,7 @@ Lemma csv_core_wf t ityp trk lin nm nd : wf_table t ityp nm = true ->
                   (flat_map (row_edge t ityp nm) (t_rows t))
                   (drop_invalid trk lin (csv_props t nm))).
 Proof.
-  intros Hwt Hsp. destruct (wf_table_inv _ _ _ Hwt) as [_ [Hnd [Hnone [Hm1 [Hint Hpar]]]]].
+  intros Hwt Hsp. destruct (wf_table_inv _ _ _ Hwt) as [Hnd [Hnone [Hm1 [Hes [Hint Hpar]]]]].
   set (cols := t_cols t) in *. set (cid := id_col nm) in *. set (cpar := par_col nm) in *.
   set (ids0 := column t cid) in *. set (m := id_mapping ids0).
   assert (Hin_ids : forall r, In r (t_rows t) -> In (cell_of cols r cid) ids0).
@@ -882,6 +904,14 @@ Proof.
     - specialize (Hint eq_refl c Hc). destruct c; try discriminate. reflexivity.
     - unfold map_cell. destruct (id_mapping_In _ _ Hc) as [k [Ek _]]. fold m in Ek. now rewrite Ek. }
   unfold csv_core. fold cid cpar ids0 m.
+  assert (E0 : negb ityp && existsb (is_unknown m) (column t cpar) = false).
+  { destruct ityp; [reflexivity|]. cbn [negb andb]. destruct (existsb (is_unknown m) (column t cpar)) eqn:E; [|reflexivity].
+    exfalso. apply existsb_exists in E. destruct E as [p [Hp Hu]]. unfold column in Hp. apply in_map_iff in Hp.
+    destruct Hp as [r [<- Hr]]. fold cols in Hu. destruct (Hpar r Hr) as [Hn|[Hp _]].
+    - unfold is_unknown in Hu. destruct (no_parent_cases _ _ Hn) as [E|[E|[_ E]]]; rewrite E in Hu; cbn in Hu;
+        rewrite ?andb_false_r in Hu; discriminate.
+    - unfold m in Hu. rewrite (is_unknown_false_id _ _ Hp) in Hu. discriminate. }
+  rewrite E0.
   assert (E1 : ints_of (if ityp then ids0 else map (map_cell m) ids0)
                = Some (map (fun r => renum t ityp nm (cell_of cols r cid)) (t_rows t))).
   { replace (if ityp then ids0 else map (map_cell m) ids0)
@@ -897,14 +927,15 @@ Proof.
       by (unfold column; fold cols; destruct ityp; [reflexivity|now rewrite map_map]).
     apply edge_tuples_map. intros r Hr. unfold row_edge. fold cols cpar cid.
     destruct (Hpar r Hr) as [Hn|[Hp Hne]].
-    - rewrite Hn. destruct (is_none_cases _ Hn) as [E|E]; rewrite E.
+    - rewrite Hn. destruct (no_parent_cases _ _ Hn) as [E|[E|[Ei E]]]; rewrite E.
       + left. split; [|reflexivity]. destruct ityp; [reflexivity|]. unfold map_cell, m. now rewrite (id_mapping_notin _ _ Hnone).
       + destruct ityp.
         * right. exists (-1). split; [reflexivity|]. left. now split.
         * left. split; [|reflexivity]. unfold map_cell, m. now rewrite (id_mapping_notin _ _ Hm1).
-    - assert (Hnn : is_none (cell_of cols r cpar) = false).
-      { destruct (is_none (cell_of cols r cpar)) eqn:E; [|reflexivity]. exfalso.
-        destruct (is_none_cases _ E) as [E'|E']; rewrite E' in Hp; contradiction. }
+      + subst ityp. left. split; [|reflexivity]. unfold map_cell, m. now rewrite (id_mapping_notin _ _ Hes).
+    - assert (Hnn : no_parent ityp (cell_of cols r cpar) = false).
+      { destruct (no_parent ityp (cell_of cols r cpar)) eqn:E; [|reflexivity]. exfalso.
+        destruct (no_parent_cases _ _ E) as [E'|[E'|[_ E']]]; rewrite E' in Hp; contradiction. }
       rewrite Hnn. right. exists (renum t ityp nm (cell_of cols r cpar)). split; [now apply Hren_id|]. right. split; [|reflexivity].
       unfold renum. fold cid ids0 m. destruct ityp eqn:Ei.
       + specialize (Hint eq_refl _ Hp). destruct (cell_of cols r cpar) as [z| | |] eqn:Ec; try discriminate. cbn.
@@ -917,7 +948,7 @@ Proof.
     apply NoDup_map_inj_in; [|exact Hnd]. intros a b Ha Hb. apply renum_inj; [|exact Ha|exact Hb].
     intros Ei. split; now apply Hint.
   - intros r Hr. unfold row_edge. fold cols cpar cid.
-    destruct (is_none (cell_of cols r cpar)) eqn:En; [now left|right].
+    destruct (no_parent ityp (cell_of cols r cpar)) eqn:En; [now left|right].
     destruct (Hpar r Hr) as [Hn|[Hp Hne]]; [congruence|].
     eexists. split; [reflexivity|]. split.
     + intros E. apply Hne. eapply renum_inj; [|exact Hp|now apply Hin_ids|exact E].
@@ -925,6 +956,9 @@ Proof.
     + unfold ids0, column in Hp. apply in_map_iff in Hp. destruct Hp as [r' [E Hr']]. apply in_map_iff. exists r'. split; [|exact Hr'].
       fold cols in E. now rewrite E.
 Qed.
+
+Lemma wf_table_nodup t ityp nm : wf_table t ityp nm = true -> nodup_cells (column t (id_col nm)) = true.
+Proof. intros H. destruct (wf_table_inv _ _ _ H) as [Hnd _]. now apply nodup_cells_NoDup. Qed.
 
 (* ---- (1) nodes and edges, (4) the renumbering ---- *)
 Theorem csv_nodes_edges : forall t ityp trk lin nm,
@@ -934,7 +968,7 @@ Theorem csv_nodes_edges : forall t ityp trk lin nm,
     g_edges g = flat_map (row_edge t ityp nm) (t_rows t).
 Proof.
   intros t ityp trk lin nm Hwm Hwt. destruct (import_csv_wf_map t ityp trk lin nm Hwm) as [pcs [Hpos E]].
-  destruct (wf_table_inv _ _ _ Hwt) as [Hraw _]. rewrite Hraw in E.
+  rewrite (wf_table_nodup _ _ _ Hwt) in E.
   rewrite (csv_core_wf t ityp trk lin nm _ Hwt (csv_props_spatial t nm pcs Hwm Hpos)) in E.
   eexists. split; [exact E|]. cbn [g_nodes g_edges construct]. split; [apply construct_nodes_fst|reflexivity].
 Qed.
@@ -942,13 +976,13 @@ Qed.
 Theorem csv_edges_iff : forall t ityp trk lin nm g,
   wf_map (t_cols t) nm = true -> wf_table t ityp nm = true -> import_csv t ityp trk lin nm = Ok g ->
   forall u v, In (u, v) (g_edges g) <->
-    exists r, In r (t_rows t) /\ is_none (cell_of (t_cols t) r (par_col nm)) = false /\
+    exists r, In r (t_rows t) /\ no_parent ityp (cell_of (t_cols t) r (par_col nm)) = false /\
               u = renum t ityp nm (cell_of (t_cols t) r (par_col nm)) /\
               v = renum t ityp nm (cell_of (t_cols t) r (id_col nm)).
 Proof.
   intros t ityp trk lin nm g Hwm Hwt Hg u v. destruct (csv_nodes_edges t ityp trk lin nm Hwm Hwt) as [g' [Hg' [_ He]]].
   rewrite Hg in Hg'. injection Hg' as <-. rewrite He, in_flat_map. unfold row_edge. split.
-  - intros [r [Hr Hin]]. exists r. destruct (is_none _); [destruct Hin|]. destruct Hin as [Hin|[]]. injection Hin as <- <-. auto.
+  - intros [r [Hr Hin]]. exists r. destruct (no_parent _ _); [destruct Hin|]. destruct Hin as [Hin|[]]. injection Hin as <- <-. auto.
   - intros [r [Hr [Hn [-> ->]]]]. exists r. split; [exact Hr|]. rewrite Hn. now left.
 Qed.
 
@@ -975,7 +1009,7 @@ Theorem csv_values : forall t ityp trk lin nm g,
     (forall k, In k (keys attrs) -> haskey k nm = true /\ k <> k_id /\ k <> k_parent).
 Proof.
   intros t ityp trk lin nm g Hwm Hwt Hg i r Hi. destruct (import_csv_wf_map t ityp trk lin nm Hwm) as [pcs [Hpos E]].
-  destruct (wf_table_inv _ _ _ Hwt) as [Hraw _]. rewrite Hraw in E.
+  rewrite (wf_table_nodup _ _ _ Hwt) in E.
   rewrite (csv_core_wf t ityp trk lin nm _ Hwt (csv_props_spatial t nm pcs Hwm Hpos)) in E.
   rewrite Hg in E. injection E as ->. cbn [g_nodes construct].
   destruct (csv_props_spec t nm Hwm) as [Hnd [HS [HM HK]]].
@@ -1028,51 +1062,57 @@ Qed.
 Lemma in_combine_map {A B C} (f : A -> B) (g : A -> C) l r : In r l -> In (f r, g r) (List.combine (map f l) (map g l)).
 Proof. induction l as [|x l IH]; intros H; [destruct H|]. cbn. destruct H as [->|H]; [now left|right; now apply IH]. Qed.
 
-(* under a valid clean name map the outcome is a graph or ValueError, and a graph passes the structural validation *)
+(* under a valid clean name map the outcome is a graph or ValueError, and a graph passes every check *)
 Lemma import_csv_outcome t ityp trk lin nm : wf_map (t_cols t) nm = true ->
   import_csv t ityp trk lin nm = ValueErr \/
   exists g ids es,
-    import_csv t ityp trk lin nm = Ok g /\ raw_id_unique t = true /\
+    import_csv t ityp trk lin nm = Ok g /\ nodup_cells (column t (id_col nm)) = true /\
+    (ityp = false -> existsb (is_unknown (id_mapping (column t (id_col nm)))) (column t (par_col nm)) = false) /\
     ints_of (if ityp then column t (id_col nm) else map (map_cell (id_mapping (column t (id_col nm)))) (column t (id_col nm))) = Some ids /\
     edge_tuples (if ityp then column t (par_col nm) else map (map_cell (id_mapping (column t (id_col nm)))) (column t (par_col nm))) ids = Some es /\
     structure_ok ids es = true.
 Proof.
   intros Hwm. destruct (import_csv_wf_map t ityp trk lin nm Hwm) as [pcs [_ E]]. rewrite E.
-  destruct (raw_id_unique t); [|now left]. unfold csv_core.
+  destruct (nodup_cells _); [|now left]. unfold csv_core.
+  destruct (negb ityp && existsb _ _) eqn:E0; [now left|].
   destruct (ints_of _) as [ids|] eqn:E1; [|now left]. destruct (edge_tuples _ ids) as [es|] eqn:E2; [|now left].
   destruct (finish_cases (Some (S (length pcs))) trk lin ids es (csv_props t nm)) as [[Hs [g Hg]]|Hv]; [|now left].
-  right. exists g, ids, es. auto.
+  right. exists g, ids, es. repeat split; auto. intros ->. exact E0.
 Qed.
 
-(* (3a) two rows with the same id *)
+(* (3a) two rows with the same id (in the MAPPED id column) *)
 Theorem csv_reject_duplicate_id : forall t ityp trk lin nm,
   wf_map (t_cols t) nm = true -> nodup_cells (column t (id_col nm)) = false ->
   import_csv t ityp trk lin nm = ValueErr.
 Proof.
-  intros t ityp trk lin nm Hwm Hdup. destruct (import_csv_outcome t ityp trk lin nm Hwm) as [E|[g [ids [es [_ [_ [E1 [_ Hs]]]]]]]]; [exact E|].
-  exfalso. unfold structure_ok in Hs. rewrite !andb_true_iff in Hs. destruct Hs as [[[Hn _] _] _]. apply nodup_z_NoDup in Hn.
-  assert (Hnd : NoDup (column t (id_col nm))).
-  { apply ints_of_Some in E1. assert (Hc : NoDup (map CInt ids)) by (apply NoDup_map_inj_in; [intros a b _ _ Hab; congruence|exact Hn]).
-    rewrite <- E1 in Hc. destruct ityp; [exact Hc|]. eapply NoDup_map_inv; eauto. }
-  apply nodup_cells_NoDup in Hnd. congruence.
+  intros t ityp trk lin nm Hwm Hdup. destruct (import_csv_wf_map t ityp trk lin nm Hwm) as [pcs [_ E]]. now rewrite E, Hdup.
 Qed.
 
-(* (3b) a parent that is not an id - integer-typed ids only (see C12_unknown_parent_accepted_when_renumbered) *)
-Theorem csv_reject_unknown_parent : forall t trk lin nm r z,
+(* (3b) a parent that is neither "no parent" nor an id *)
+Theorem csv_reject_unknown_parent : forall t ityp trk lin nm r,
   wf_map (t_cols t) nm = true -> In r (t_rows t) ->
-  cell_of (t_cols t) r (par_col nm) = CInt z -> z <> -1 -> ~ In (CInt z) (column t (id_col nm)) ->
-  import_csv t true trk lin nm = ValueErr.
+  no_parent ityp (cell_of (t_cols t) r (par_col nm)) = false ->
+  ~ In (cell_of (t_cols t) r (par_col nm)) (column t (id_col nm)) ->
+  (ityp = true -> is_int (cell_of (t_cols t) r (par_col nm)) = true) ->
+  import_csv t ityp trk lin nm = ValueErr.
 Proof.
-  intros t trk lin nm r z Hwm Hr Hp Hz Hni.
-  destruct (import_csv_outcome t true trk lin nm Hwm) as [E|[g [ids [es [_ [_ [E1 [E2 Hs]]]]]]]]; [exact E|].
-  exfalso. cbn iota in E1, E2. pose proof (ints_of_zof _ _ E1) as Hids. pose proof (ints_of_Some _ _ E1) as Hcol.
-  unfold column in Hids at 1. rewrite map_map in Hids.
-  assert (Hin : In (z, zof (cell_of (t_cols t) r (id_col nm))) es).
-  { eapply edge_tuples_In; [exact E2| |exact Hz]. rewrite Hids. unfold column. rewrite <- Hp.
-    apply (in_combine_map (fun r => cell_of (t_cols t) r (par_col nm)) (fun r => zof (cell_of (t_cols t) r (id_col nm)))). exact Hr. }
-  unfold structure_ok in Hs. rewrite !andb_true_iff in Hs. destruct Hs as [[[_ Hk] _] _].
-  unfold edges_known in Hk. rewrite forallb_forall in Hk. specialize (Hk _ Hin). cbn [fst snd] in Hk.
-  apply andb_true_iff in Hk. destruct Hk as [Hk _]. apply memz_In in Hk. apply Hni. rewrite Hcol. now apply in_map.
+  intros t ityp trk lin nm r Hwm Hr Hnp Hni Hint.
+  destruct (import_csv_outcome t ityp trk lin nm Hwm) as [E|[g [ids [es [_ [_ [E0 [E1 [E2 Hs]]]]]]]]]; [exact E|].
+  exfalso. destruct ityp.
+  - specialize (Hint eq_refl). destruct (cell_of (t_cols t) r (par_col nm)) as [z| | |] eqn:Hp; try discriminate.
+    assert (Hz : z <> -1) by (intros ->; unfold no_parent in Hnp; cbn in Hnp; discriminate).
+    cbn iota in E1, E2. pose proof (ints_of_zof _ _ E1) as Hids. pose proof (ints_of_Some _ _ E1) as Hcol.
+    unfold column in Hids at 1. rewrite map_map in Hids.
+    assert (Hin : In (z, zof (cell_of (t_cols t) r (id_col nm))) es).
+    { eapply edge_tuples_In; [exact E2| |exact Hz]. rewrite Hids. unfold column. rewrite <- Hp.
+      apply (in_combine_map (fun r => cell_of (t_cols t) r (par_col nm)) (fun r => zof (cell_of (t_cols t) r (id_col nm)))). exact Hr. }
+    unfold structure_ok in Hs. rewrite !andb_true_iff in Hs. destruct Hs as [[[_ Hk] _] _].
+    unfold edges_known in Hk. rewrite forallb_forall in Hk. specialize (Hk _ Hin). cbn [fst snd] in Hk.
+    apply andb_true_iff in Hk. destruct Hk as [Hk _]. apply memz_In in Hk. apply Hni. rewrite Hcol. now apply in_map.
+  - specialize (E0 eq_refl). assert (existsb (is_unknown (id_mapping (column t (id_col nm)))) (column t (par_col nm)) = true); [|congruence].
+    apply existsb_exists. exists (cell_of (t_cols t) r (par_col nm)). split; [unfold column; apply in_map_iff; now exists r|].
+    unfold no_parent in Hnp. cbn [negb andb] in Hnp. apply orb_false_iff in Hnp. destruct Hnp as [Hn1 Hn2].
+    apply is_unknown_true; [exact Hni| | |]; intros E; rewrite E in *; discriminate.
 Qed.
 
 (* (3c) a row that is its own parent *)
@@ -1083,7 +1123,7 @@ Theorem csv_reject_self_parent : forall t ityp trk lin nm r,
   import_csv t ityp trk lin nm = ValueErr.
 Proof.
   intros t ityp trk lin nm r Hwm Hr Heq Hnn.
-  destruct (import_csv_outcome t ityp trk lin nm Hwm) as [E|[g [ids [es [_ [_ [E1 [E2 Hs]]]]]]]]; [exact E|].
+  destruct (import_csv_outcome t ityp trk lin nm Hwm) as [E|[g [ids [es [_ [_ [_ [E1 [E2 Hs]]]]]]]]]; [exact E|].
   exfalso. set (cols := t_cols t) in *. set (cid := id_col nm) in *. set (cpar := par_col nm) in *.
   set (m := id_mapping (column t cid)) in *.
   set (fc := fun r0 : list cell => if ityp then cell_of cols r0 cid else map_cell m (cell_of cols r0 cid)).
